@@ -107,7 +107,12 @@ func init() {
 func regBlindRSA() {
 	key := strongRSAKey()
 	kLen := (key.N.BitLen() + 7) / 8
-	nBytes := key.N.FillBytes(make([]byte, kLen))
+	// the integers 0, 1, N-1, N, N+1, 2^(8k)-1 and p as k-byte strings
+	var hostileInts [][]byte
+	for _, v := range []*big.Int{big.NewInt(0), big.NewInt(1), new(big.Int).Sub(key.N, big.NewInt(1)), key.N, new(big.Int).Add(key.N, big.NewInt(1)),
+		new(big.Int).Sub(new(big.Int).Lsh(big.NewInt(1), uint(8*kLen)), big.NewInt(1)), key.Primes[0]} {
+		hostileInts = append(hostileInts, v.FillBytes(make([]byte, kLen)))
+	}
 	signer := blindrsa.NewSigner(key)
 	for _, vr := range []struct {
 		name string
@@ -145,18 +150,21 @@ func regBlindRSA() {
 		name := "blindrsa/" + vr.name
 		if vr.v == blindrsa.SHA384PSSRandomized {
 			// the signer does not depend on the variant: one entry
-			Register(Entry{Name: "blindrsa.Signer.BlindSign", Group: "blindrsa", Cost: 6, NValid: 2,
+			addCorpus("blindrsa.Signer.BlindSign", hostileInts...)
+			Register(Entry{Name: "blindrsa.Signer.BlindSign", Group: "blindrsa", Cost: 6,
 				Call:  func(b []byte) { _, _ = signer.BlindSign(b) },
-				Valid: func(i int) []byte { return [][]byte{blinded, nBytes}[i%2] }})
+				Valid: func(int) []byte { return blinded }})
 		}
 		Register(
-			Entry{Name: name + ".Client.Finalize", Group: "blindrsa", NValid: 2,
+			Entry{Name: name + ".Client.Finalize", Group: "blindrsa",
 				Call:  func(b []byte) { _, _ = client.Finalize(state, b) },
-				Valid: func(i int) []byte { return [][]byte{blindSig, nBytes}[i%2] }},
-			Entry{Name: name + ".Verifier.Verify", Group: "blindrsa", NValid: 2,
+				Valid: func(int) []byte { return blindSig }},
+			Entry{Name: name + ".Verifier.Verify", Group: "blindrsa",
 				Call:  func(b []byte) { _ = verifier.Verify(msg, b); _ = client.Verify(msg, b) },
-				Valid: func(i int) []byte { return [][]byte{sig, nBytes}[i%2] }},
+				Valid: func(int) []byte { return sig }},
 		)
+		addCorpus(name+".Client.Finalize", hostileInts...)
+		addCorpus(name+".Verifier.Verify", hostileInts...)
 	}
 
 	// partially blind RSA
@@ -189,19 +197,22 @@ func regBlindRSA() {
 			panic("partiallyblindrsa fixture does not verify")
 		}
 		name := "partiallyblindrsa/" + h.String()
+		addCorpus(name+".Signer.BlindSign", hostileInts...)
+		addCorpus(name+".VerifierState.Finalize", hostileInts...)
+		addCorpus(name+".Verifier.Verify", hostileInts...)
 		Register(
-			Entry{Name: name + ".Signer.BlindSign", Group: "blindrsa", Cost: 12, NValid: 2,
+			Entry{Name: name + ".Signer.BlindSign", Group: "blindrsa", Cost: 12,
 				Call:  func(b []byte) { _, _ = psigner.BlindSign(b, metadata) },
-				Valid: func(i int) []byte { return [][]byte{pblinded, nBytes}[i%2] }},
+				Valid: func(int) []byte { return pblinded }},
 			Entry{Name: name + ".Signer.BlindSign(hostile-metadata)", Group: "blindrsa", Cost: 12,
 				Call:  func(b []byte) { _, _ = psigner.BlindSign(pblinded, b) },
 				Valid: func(int) []byte { return metadata }},
-			Entry{Name: name + ".VerifierState.Finalize", Group: "blindrsa", Cost: 3, NValid: 2,
+			Entry{Name: name + ".VerifierState.Finalize", Group: "blindrsa", Cost: 3,
 				Call:  func(b []byte) { _, _ = pstate.Finalize(b) },
-				Valid: func(i int) []byte { return [][]byte{pblindSig, nBytes}[i%2] }},
-			Entry{Name: name + ".Verifier.Verify", Group: "blindrsa", Cost: 3, NValid: 2,
+				Valid: func(int) []byte { return pblindSig }},
+			Entry{Name: name + ".Verifier.Verify", Group: "blindrsa", Cost: 3,
 				Call:  func(b []byte) { _ = pverifier.Verify(pmsg, metadata, b) },
-				Valid: func(i int) []byte { return [][]byte{psig, nBytes}[i%2] }},
+				Valid: func(int) []byte { return psig }},
 			Entry{Name: name + ".Verifier.Verify(hostile-metadata)", Group: "blindrsa", Cost: 3,
 				Call:  func(b []byte) { _ = pverifier.Verify(pmsg, b, psig) },
 				Valid: func(int) []byte { return metadata }},
@@ -273,15 +284,25 @@ func regPKI() {
 		[]byte("garbage that is not PEM\n"),
 		[]byte("\n"),
 	}
-	pub := append(append([][]byte{}, pemPub...), extra...)
-	priv := append(append([][]byte{}, pemPriv...), extra...)
+	addCorpus("pki.UnmarshalPEMPublicKey", extra...)
+	addCorpus("pki.UnmarshalPEMPublicKey", pemPriv...) // a private key where a public key is expected
+	addCorpus("pki.UnmarshalPEMPrivateKey", extra...)
+	addCorpus("pki.UnmarshalPEMPrivateKey", pemPub...)
+	for _, e := range extra {
+		if blk, _ := pem.Decode(e); blk != nil && len(blk.Bytes) > 0 {
+			for _, n := range []string{"Ed25519", "Ed448"} {
+				addCorpus("pki.UnmarshalPKIXPublicKey/"+n, blk.Bytes)
+				addCorpus("pki.UnmarshalPKIXPrivateKey/"+n, blk.Bytes)
+			}
+		}
+	}
 	Register(
-		Entry{Name: "pki.UnmarshalPEMPublicKey", Group: "pki", NValid: len(pub),
+		Entry{Name: "pki.UnmarshalPEMPublicKey", Group: "pki", NValid: len(pemPub),
 			Call:  func(b []byte) { _, _ = pki.UnmarshalPEMPublicKey(b) },
-			Valid: func(i int) []byte { return pub[i%len(pub)] }},
-		Entry{Name: "pki.UnmarshalPEMPrivateKey", Group: "pki", NValid: len(priv),
+			Valid: func(i int) []byte { return pemPub[i%len(pemPub)] }},
+		Entry{Name: "pki.UnmarshalPEMPrivateKey", Group: "pki", NValid: len(pemPriv),
 			Call:  func(b []byte) { _, _ = pki.UnmarshalPEMPrivateKey(b) },
-			Valid: func(i int) []byte { return priv[i%len(priv)] }},
+			Valid: func(i int) []byte { return pemPriv[i%len(pemPriv)] }},
 	)
 	// PKIX: one entry per scheme so that the DER length octets can be named
 	for i := range derPub {
@@ -362,7 +383,7 @@ func regSIDH() {
 		{"p751", sidh.Fp751, sikep751.Scheme(), func() *sidh.KEM { return sidh.NewSike751(vlib.NewReader(350)) }},
 	} {
 		p := p
-		cost := map[string]int{"p434": 12, "p503": 16, "p751": 40}[p.name]
+		cost := map[string]int{"p434": 20, "p503": 30, "p751": 60}[p.name]
 		// raw SIDH key import, both variants
 		for _, kv := range []struct {
 			n string
